@@ -463,6 +463,7 @@ func (e *Engine) verifyFunction(fn *ssa.Function, c *Contract) (err error) {
 	e.curFunc = short + "." + rel
 	e.curProps = c.Props
 	e.curContract = c
+	e.curAliases = e.localAliases(pkg+"::"+rel, fn)
 	defer func() {
 		if r := recover(); r != nil {
 			if ee, ok := r.(engineError); ok {
@@ -1265,7 +1266,6 @@ func (e *Engine) consequentObligation(st2 *State, fr *Frame, env2 *SpecEnv, a *T
 	}
 	e.addObligation(st2, fr, "ensures", strconv.Itoa(i), g, en.Text)
 }
-
 
 // deepFresh emits the freshness obligations for the pointer / slice fields of the struct x points to.
 func (e *Engine) deepFresh(st *State, fr *Frame, env *SpecEnv, x ast.Expr, t types.Type, shared map[string]bool, depth int) {
